@@ -444,11 +444,52 @@ def st_Try(eng, s, st):
     return outs
 
 
+def _split_contextmanager(fn):
+    """a @contextmanager generator with exactly one yield -> (pre, post_protected(finally), post_unprotected) or None"""
+    ys = [n for n in ast.walk(fn) if isinstance(n, (ast.Yield, ast.YieldFrom))]
+    if len(ys) != 1 or not any("contextmanager" in ast.unparse(d) for d in fn.decorator_list):
+        return None
+    for i, stt in enumerate(fn.body):
+        if isinstance(stt, ast.Expr) and stt.value is ys[0]:
+            return fn.body[:i], [], fn.body[i + 1 :]
+        if isinstance(stt, ast.Try) and len(stt.body) == 1 and isinstance(stt.body[0], ast.Expr) and stt.body[0].value is ys[0] and not stt.handlers and not stt.orelse:
+            return fn.body[:i], stt.finalbody, fn.body[i + 1 :]
+    return None
+
+
 def st_With(eng, s, st):
     m = eng.method_models.get("__with__")
-    if m is None:
-        raise Unsupported("with statement")
-    return m(eng, st, s)
+    if m is not None:
+        return m(eng, st, s)
+    # a context manager written in the file under proof as an @contextmanager generator: executed around the body
+    if len(s.items) == 1 and isinstance(s.items[0].context_expr, ast.Call) and isinstance(s.items[0].context_expr.func, ast.Name) and eng.module is not None:
+        cm = None
+        for modl in [eng.module] + list(getattr(eng, "extra_modules", [])):
+            try:
+                cand = modl._find_in(modl.tree.body, s.items[0].context_expr.func.id, (ast.FunctionDef,))
+            except Exception:
+                cand = None
+            if cand is not None:
+                cm = cand
+                break
+        parts = _split_contextmanager(cm) if cm is not None else None
+        if parts is not None and not s.items[0].context_expr.args and not s.items[0].context_expr.keywords and s.items[0].optional_vars is None:
+            pre, fin, post = parts
+            outs = []
+            for s1, o1 in run(eng, pre, st):
+                if o1.kind != "normal":
+                    outs.append((s1, o1))
+                    continue
+                for s2, o2 in run(eng, s.body, s1):
+                    if o2.kind == "raise":
+                        # the exception is thrown into the generator at its yield: only a `finally` around the yield runs
+                        for s3, o3 in run(eng, fin, s2):
+                            outs.append((s3, o2 if o3.kind == "normal" else o3))
+                    else:
+                        for s3, o3 in run(eng, list(fin) + list(post), s2):
+                            outs.append((s3, o2 if o3.kind == "normal" else o3))
+            return outs
+    raise Unsupported("with statement")
 
 
 def st_FunctionDef(eng, s, st):
